@@ -66,7 +66,7 @@ def jobs(tier):
     for nf in range(mx + 1):
       for nt in range(mx + 1):
         for op in ('request', 'reply', 'timeout-unsent', 'timeout-sent'):
-          if op.startswith('timeout') and (nt == 0 or kind == 'kafka' and op == 'timeout-sent'): continue
+          if op.startswith('timeout') and nt == 0: continue
           js.append(dict(name='%s-%s-F%d-T%d' % (kind, op, nf, nt), kind=kind, op=op, nf=nf, nt=nt, cost=(nf + 1) * (nt + 1)))
   return js
 
@@ -223,8 +223,9 @@ def make_body(job):
         for _ in range(6): gevent.sleep(0)
         F2, T2, n2 = inv_after(s)
         check('timeout-sent.tag-stays-unanswered', len(T2) == nt and len(F2) == nf and bool(in_list(T[0], T2)))
-        check('timeout-sent.discard-written', len(sock.written) == 2)
-        if len(sock.written) == 2:
+        # (Kafka has no discard message: the correlation id simply stays reserved)
+        if kind == 'tmux': check('timeout-sent.discard-written', len(sock.written) == 2)
+        if kind == 'tmux' and len(sock.written) == 2:
           b = SymBytes.of(sock.written[1])
           check('timeout-sent.discard-type', b[4] == MessageType.Tdiscarded)
           check('timeout-sent.discard-own-tag-0', header_tag(kind, sock.written[1]) == 0)
